@@ -39,6 +39,9 @@ const DEFECTS: &[Defect] = &[
     Defect { kind: "generator: deref of a non-pointer", text: "  *v0 = 1;", msg: "Deref on something else", level: 1, needs: "" },
     Defect { kind: "generator: void value used", text: "  v0 = f0();", msg: "void", level: 1, needs: "" },
     Defect { kind: "generator: no multiplier", text: "  v0 = v0 * v1;", msg: "multiplier", level: 1, needs: "" },
+    Defect { kind: "semantic: unknown identifier at column 0", text: "v0 = nosuch;", msg: "Unknown identifier nosuch", level: 1, needs: "" },
+    Defect { kind: "generator: break outside loop at column 0", text: "break;", msg: "outside loop", level: 1, needs: "" },
+    Defect { kind: "preprocessor: undefined identifier in #if", text: "#if NOSUCHMACRO", msg: "ndefined identifier", level: 0, needs: "" },
     Defect { kind: "semantic: pointer to short (global)", text: "short *ps;", msg: "Type too complex", level: 0, needs: "" },
     Defect { kind: "semantic: pointer to short (local)", text: "  short *pl;", msg: "Type too complex", level: 1, needs: "" },
     Defect { kind: "semantic: pointer to short (parameter)", text: "void fq(char xq, short *q) { }", msg: "Type too complex", level: 0, needs: "" },
@@ -396,7 +399,7 @@ impl Monitor for C06 {
         "exploration"
     }
     fn rule(&self) -> String {
-        "one defect of a known kind (23 kinds: preprocessor, syntax, semantic, code generation) is planted at a known file and line after a random \
+        "one defect of a known kind (26 kinds: preprocessor, syntax, semantic, code generation) is planted at a known file and line after a random \
          sequence of 0-6 line-shifting constructs (blank and white-space-only lines, multi-line block comments, code after */, // comments, 2-4 line \
          splices, skipped #if 0 regions with nested directives, #if 1/#else regions, #define lines, #include of a C header and of an assembler file, \
          multi-line functions, CR-LF), in the main file before or after other text or functions, on a spliced logical line, or inside an included \
